@@ -399,6 +399,12 @@ func Run(r *hk.Run) {
 			if HasRelation(cons) {
 				r.Hit("cons-region:relation")
 			}
+			if HasAt(cons) {
+				r.Hit("cons-region:at")
+				if ScratchRisk(cons) {
+					r.Hit("cons-region:at-and-valueinset-over-attr")
+				}
+			}
 			lims := limits
 			if r.R.Chance(20) {
 				lims = []int{1, 2, 3, 0}
